@@ -26,6 +26,7 @@ var (
 	VerifRing  atomic.Int64 // gauge: closed-id ring length
 	VerifHeld  atomic.Int64 // gauge: header octets held back across frames
 	VerifBody  atomic.Int64 // gauge: most request body octets buffered for one stream not yet handed over
+	VerifRMem  atomic.Int64 // gauge: ids of streams this side reset that are still remembered
 
 	VerifClientEnqN      atomic.Int64 // items put into in/out/winCh
 	VerifClientDeqN      atomic.Int64 // write-loop iterations completed
@@ -46,6 +47,8 @@ func verifLoopTop(strms, open, ring, held int) {
 	VerifHeld.Store(int64(held))
 	VerifLoopTopN.Add(1)
 }
+
+func verifResetMem(n int) { VerifRMem.Store(int64(n)) }
 
 func verifLoopExit() { VerifLoopExitN.Add(1) }
 
@@ -78,7 +81,7 @@ func VerifResetCounters() {
 	for _, c := range []*atomic.Int64{
 		&VerifForwardedN, &VerifLoopTopN, &VerifLoopExitN, &VerifQueuedN,
 		&VerifDroppedN, &VerifDispatchedN, &VerifStrms, &VerifOpen, &VerifRing,
-		&VerifHeld, &VerifBody, &VerifClientEnqN, &VerifClientDeqN, &VerifClientLoopExits,
+		&VerifHeld, &VerifBody, &VerifRMem, &VerifClientEnqN, &VerifClientDeqN, &VerifClientLoopExits,
 	} {
 		c.Store(0)
 	}
